@@ -209,10 +209,15 @@ def unpack_collections(expr, _return_collections=True):
         )
 
         collections = tuple(toolz.unique(toolz.concat(collections), key=id))
+        elements = tuple(args)
         # The List constructor also checks for futures
-        args = List(*args)
+        args = List(*elements)
         if not collections and not args.dependencies:
-            return expr, ()
+            if all(a is e for a, e in zip(elements, expr)):
+                return expr, ()
+            # An element was an iterator: the traversal has consumed it, hand
+            # on the list (tuple, set) it was converted to
+            return typ(elements), ()
         if _return_collections:
             args, collections = _finalize_args_collections(args, collections)
         # Ensure output type matches input type
@@ -230,7 +235,12 @@ def unpack_collections(expr, _return_collections=True):
         collections = kcollections + valcollections
         args = Dict([[k, v] for k, v in zip(keyargs, valargs)])
         if not collections and not args.dependencies:
-            return expr, ()
+            if all(k is k0 for k, k0 in zip(keyargs, expr.keys())) and all(
+                v is v0 for v, v0 in zip(valargs, expr.values())
+            ):
+                return expr, ()
+            # A key or value was an iterator and has been converted
+            return dict(zip(keyargs, valargs)), ()
         if _return_collections:
             args, collections = _finalize_args_collections(args, collections)
         return args, collections
@@ -240,7 +250,9 @@ def unpack_collections(expr, _return_collections=True):
             [expr.start, expr.stop, expr.step], _return_collections=False
         )
         if not collections and not isinstance(args, GraphNode):
-            return expr, ()
+            if all(a is e for a, e in zip(args, (expr.start, expr.stop, expr.step))):
+                return expr, ()
+            return slice(*args), ()
 
         if _return_collections:
             args, collections = _finalize_args_collections(args, collections)
@@ -256,7 +268,10 @@ def unpack_collections(expr, _return_collections=True):
             _return_collections=False,
         )
         if not collections and not isinstance(args, GraphNode):
-            return expr, ()
+            if all(value is getattr(expr, name) for name, value in args):
+                return expr, ()
+            # A field was an iterator and has been converted
+            return replace(expr, **dict(args)), ()
 
         if _return_collections:
             args, collections = _finalize_args_collections(args, collections)
@@ -285,7 +300,10 @@ def unpack_collections(expr, _return_collections=True):
             tuple(v for v in expr), _return_collections=False
         )
         if not collections:
-            return expr, ()
+            if isinstance(args, GraphNode) or all(a is e for a, e in zip(args, expr)):
+                return expr, ()
+            # A field was an iterator and has been converted
+            return typ(*args), ()
         if _return_collections:
             args, collections = _finalize_args_collections(args, collections)
         return Task(None, _reconstruct_namedtuple, typ, args), collections
